@@ -965,8 +965,10 @@ def stub_pool_release(rec, F):
         return
     for rb, rt in rel:
         # the release is on a path with a native.call: that call dominates it
-        paired = [c for c in calls if sem.reaches(cn, c, rb) or sem.reaches(cn, rb, c)]
-        ok = bool(paired) and all(cn.dominates(c, rb) for c in paired)
+        before = [c for c in calls if sem.reaches(cn, rb, c)]      # native.call can still run after this release
+        after = [c for c in calls if sem.reaches(cn, c, rb)]
+        # a release on a path that never reaches native.call (the frame could not be pushed: the stub goes straight back) is fine
+        ok = not before and (bool(after) or not any(sem.reaches(cn, rb, c) for c in calls))
         rec.inst(R, "call_native: stub returned to the pool after native.call", ok=ok, loc=loc_of(rt["sp"]))
         if not ok:
             rec.finding(R, "F4.stub-pool/release-before-call", "call_native puts the frame's stub back into native_fun_stubs before native.call returns: a native called from this native's callback takes the same stub and renames it, so the still-active outer frame is reported under the inner native's name in tracebacks and backTrace", loc=loc_of(rt["sp"]), fn=cn.path)
